@@ -18,35 +18,22 @@ Theorem inf_retis_eq_Pspec_weighted12_3 : forall rp m rows lk,
   length rows = m ->
   (forall row, In row rows -> (1 <= length row <= m)%nat /\ (forall w, In w row -> In w [1; 2])) ->
   length lk = S m ->
-  let W := wstair_matrix rows in
-  let locks := lk ++ [true] in
-  idle_idx locks <> [] ->
-  ~ perm (length (idle_idx locks)) (of_lists (idle_block W locks)) == 0 ->
-  exists P, inf_retis rp 1 W locks = Some P /\ is_Pspec_on_idle W locks (mget P).
+  refines_Pspec rp (wstair_matrix rows) (lk ++ [true]).
 Proof.
-  intros rp m rows lk Hm Hl Hr Hlk W locks Hidle Hperm.
-  apply case_ok_sound; [|exact Hidle|exact Hperm].
+  intros rp m rows lk Hm.
   assert (Hs : sweepw rp [1; 2] m = true).
   { destruct m as [|[|[|[|m]]]]; try lia; [apply sweepw12_1 | apply sweepw12_2 | apply sweepw12_3]. }
-  unfold sweepw in Hs.
-  rewrite forallb_forall in Hs. specialize (Hs rows (in_all_wstairs [1; 2] m rows Hl Hr)).
-  rewrite forallb_forall in Hs. exact (Hs _ (in_all_locks m lk Hlk)).
+  exact (sweepw_sound rp [1; 2] m Hs rows lk).
 Qed.
 
 Theorem inf_retis_eq_Pspec_weighted123_3_idle : forall rp m rows,
   (1 <= m <= 3)%nat ->
   length rows = m ->
   (forall row, In row rows -> (1 <= length row <= m)%nat /\ (forall w, In w row -> In w [1; 2; 3])) ->
-  let W := wstair_matrix rows in
-  let locks := repeat false (S m) ++ [true] in
-  ~ perm (length (idle_idx locks)) (of_lists (idle_block W locks)) == 0 ->
-  exists P, inf_retis rp 1 W locks = Some P /\ is_Pspec_on_idle W locks (mget P).
+  refines_Pspec rp (wstair_matrix rows) (repeat false (S m) ++ [true]).
 Proof.
-  intros rp m rows Hm Hl Hr W locks Hperm.
-  apply case_ok_sound; [| |exact Hperm].
-  - assert (Hs : sweepw_nolock rp [1; 2; 3] m = true).
-    { destruct m as [|[|[|[|m]]]]; try lia; [apply sweepw123_1 | apply sweepw123_2 | apply sweepw123_3]. }
-    unfold sweepw_nolock in Hs.
-    rewrite forallb_forall in Hs. exact (Hs rows (in_all_wstairs [1; 2; 3] m rows Hl Hr)).
-  - unfold locks. destruct m as [|[|[|[|m]]]]; try lia; vm_compute; discriminate.
+  intros rp m rows Hm.
+  assert (Hs : sweepw_nolock rp [1; 2; 3] m = true).
+  { destruct m as [|[|[|[|m]]]]; try lia; [apply sweepw123_1 | apply sweepw123_2 | apply sweepw123_3]. }
+  exact (sweepw_nolock_sound rp [1; 2; 3] m Hs rows).
 Qed.
